@@ -478,6 +478,65 @@ def judge_cat(R, what, A, B, colsA, colsB, node1, node2, translate, out, self_pa
 # ------------------------------------------------------------------ transforms/path.py
 
 
+def check_big(case, R):
+    """Size clause: re-rooting, concatenation and the sort behind them on trees beyond 46 341 nodes (where a product of two node
+    numbers leaves the int32 range) and around 65 536: same nodes, same undirected edges, one root, parents first."""
+    from swcgeom.core import Tree, cat_tree, redirect_tree
+
+    kind, n = case[0], int(case[1])
+    R.state(kind, n)
+    i = np.arange(n)
+    # a "broom": a spine of n // 2 nodes, every second spine node carries one side twig node (children stored after parents)
+    half = n // 2
+    pid = np.empty(n, dtype=np.int32)
+    pid[0] = -1
+    pid[1:half] = np.arange(0, half - 1)
+    pid[half:] = (2 * (np.arange(half, n) - half)) % half
+    tag = (i + 1).astype(np.float32)  # exact in float32 up to 2^24: identifies nodes
+
+    def make(offset=0.0):
+        return Tree(n, id=i.astype(np.int32), pid=pid.copy(), type=np.full(n, 3, dtype=np.int32), x=tag + np.float32(offset), y=np.zeros(n, dtype=np.float32),
+                    z=np.zeros(n, dtype=np.float32), r=np.ones(n, dtype=np.float32))
+
+    def edges_of(t):
+        p_ = t.pid().astype(np.int64)
+        x_ = t.x().astype(np.float64)
+        c_ = np.nonzero(p_ != -1)[0]
+        a, b = x_[c_], x_[p_[c_]]
+        e = np.stack([np.minimum(a, b), np.maximum(a, b)], axis=1)
+        return e[np.lexsort((e[:, 1], e[:, 0]))]
+
+    def wellformed_sorted(t, m):
+        ids_, p_ = t.id().astype(np.int64), t.pid().astype(np.int64)
+        return (len(ids_) == m and bool(np.array_equal(ids_, np.arange(m))) and p_[0] == -1 and int((p_ == -1).sum()) == 1
+                and bool(np.all(p_[1:] >= 0)) and bool(np.all(p_[1:] < np.arange(1, m))))
+
+    t = make()
+    want_edges = edges_of(t)
+    if kind == "redirect":
+        for k in (n - 1, half - 1):
+            ok, out = R.impl("redirect_tree", redirect_tree, t, k, klass="raises:redirect_tree:big")
+            if not ok:
+                continue
+            good = wellformed_sorted(out, n) and float(out.x()[0]) == float(tag[k]) and bool(np.array_equal(np.sort(out.x()), tag))
+            R.check(good and bool(np.array_equal(edges_of(out), want_edges)), "redirect:big",
+                    lambda: f"redirect_tree on a {n}-node tree at node {k}: result has {len(out)} nodes, root x={float(out.x()[0])}, "
+                            f"{int((out.pid() == -1).sum())} roots, min pid {int(out.pid().min())}", "redirect:big-tree")
+    else:
+        t2 = make(offset=float(2 * n))
+        ok, out = R.impl("cat_tree", lambda: cat_tree(t, t2, n - 1, half - 1, translate=False), klass="raises:cat_tree:big")
+        if ok:
+            allx = np.sort(np.concatenate([tag, tag + np.float32(2 * n)]))
+            e2 = edges_of(t2)
+            link = np.array([[float(tag[n - 1]), float(tag[half - 1] + np.float32(2 * n))]])
+            we = np.concatenate([want_edges, e2, link])
+            we = we[np.lexsort((we[:, 1], we[:, 0]))]
+            good = wellformed_sorted(out, 2 * n) and bool(np.array_equal(np.sort(out.x()), allx))
+            R.check(good and bool(np.array_equal(edges_of(out), we)), "cat:big", lambda: f"cat_tree of two {n}-node trees: result has {len(out)} nodes, "
+                    f"{int((out.pid() == -1).sum())} roots, min pid {int(out.pid().min())}", "cat:big-tree")
+    R.outcome(kind, n)
+
+
 def check_path(case, R):
     from swcgeom.transforms import PathReverser, PathToTree
 
@@ -697,7 +756,10 @@ def spaces(tier, seed):
                   "variants": [list(v) for v in variants], "bank": f"generic bank {seed % 4} (A) / {seed % 4 + 4} (B)"}
     if not quick:
         cat_bounds["extra"] = f"A in ST(<=4) x B in LT({b2_hi}) x 4 variants; A in LT(5) x B in LT(5) x (gen, lat)"
+    big_sizes = (46400,) if quick else (46400, 65600, 100000)
     out = [
+        Space.of("big-trees", lambda: ([k_, n_] for n_ in big_sizes for k_ in (("redirect",) if quick else ("redirect", "cat"))), check_big, case_timeout=1500.0,
+                 bounds={"nodes": list(big_sizes), "operations": ["redirect_tree at the last node and at the end of the spine"] + ([] if quick else ["cat_tree of two such trees"])}),
         Space.of("redirect", gen_redirect, check_redirect, bounds={"LT_max_nodes": red_hi, "two_step_max_nodes": two_hi, "sort": [True, False]}),
         Space.of("cat", gen_cat, check_cat, bounds=cat_bounds),
         Space.of("cat-self", gen_self, check_cat, bounds={"trees": f"LT(<={4 if quick else 5})", "pair": "the same object twice"}),
